@@ -168,7 +168,14 @@ func (x *Exec) callFn(fr *Frame, st *State, fn *ssa.Function, args []Value, bind
 		return []Outcome{{St: st, Kind: OutReturn}}
 	}
 	if m, ok := x.models[full]; ok {
-		return m(x, fr, st, args, pos)
+		outs := m(x, fr, st, args, pos)
+		if len(outs) == 1 && outs[0].Kind == OutReturn {
+			if outs[0].St.calls == nil {
+				outs[0].St.calls = map[string][]Value{}
+			}
+			outs[0].St.calls[strings.ReplaceAll(full, modulePrefix, "")+"#ret"] = outs[0].Rets
+		}
+		return outs
 	}
 	if pureFuncs[full] {
 		var rets []Value
@@ -229,6 +236,9 @@ func (x *Exec) unknownCall(fr *Frame, st *State, name string, sig *types.Signatu
 	} else {
 		x.c.note("A-ext: %s assumed to modify only memory directly referenced by its arguments; results unconstrained", name)
 		for _, a := range args {
+			if ls := x.c.leaves(a.T); len(ls) == 1 && ls[0].Kind == 'r' && len(a.L) == 1 && a.L[0] != nil {
+				x.guardAccess(st, a.L[0], false)
+			}
 			x.havocReachable(st, a)
 		}
 	}
@@ -500,7 +510,27 @@ func contractKey(fn *ssa.Function) string {
 		fn = o
 	}
 	s := fn.String()
-	return strings.ReplaceAll(s, modulePrefix, "")
+	return stripTypeArgs(strings.ReplaceAll(s, modulePrefix, ""))
+}
+
+// stripTypeArgs removes type parameter / argument lists "[K, V]" so that contracts attach to generic
+// functions by their plain name.
+func stripTypeArgs(s string) string {
+	var sb strings.Builder
+	depth := 0
+	for _, r := range s {
+		switch {
+		case r == '[':
+			depth++
+		case r == ']':
+			if depth > 0 {
+				depth--
+			}
+		case depth == 0:
+			sb.WriteRune(r)
+		}
+	}
+	return sb.String()
 }
 
 func (x *Exec) callContract(fr *Frame, st *State, fn *ssa.Function, fc *FuncContract, args []Value, pos token.Pos) []Outcome {
